@@ -107,7 +107,7 @@ fn spell(w: &str) -> String {
     w.to_string()
 }
 
-fn unspell(w: &str) -> String {
+pub fn unspell(w: &str) -> String {
     let k = spell_now();
     if k != 0 {
         let tab = if k == 1 { &SPELL1 } else { &SPELL2 };
